@@ -711,6 +711,8 @@ def parse_template(text):
             rest = d[len(word):].strip()
             if word == 'define':
                 items.append(('define', parse_attrs(rest)))
+            elif word == 'enumval':
+                items.append(('enumval', parse_attrs(rest)))
             elif word in ('function', 'region', 'members'):
                 if cur is not None:
                     raise ExtractionError('template line %d: nested block' % (i + 1))
@@ -722,6 +724,7 @@ def parse_template(text):
             elif word == 'end':
                 if cur is None:
                     raise ExtractionError('template line %d: end without block' % (i + 1))
+                cur.end_line = i + 1
                 items.append(('block', cur))
                 cur = None
                 payload = None
@@ -963,6 +966,47 @@ class Extractor:
         return ''.join(out), count
 
     # ------------------------------------------------------------------
+    def enumval(self, a):
+        """#define NAME <value of enumerator NAME> (enumerators counted from 0 or from explicit '= n').
+        names=A,B,C extracts several enumerators of the same file."""
+        src = self.src(a['file'])
+        wanted = a['names'].split(',') if 'names' in a else [a['name']]
+        out = []
+        enums = []
+        for m in re.finditer(r'\benum\s*(?:class\s+)?\w*\s*(?::\s*\w+\s*)?\{', src.text):
+            lb = m.end() - 1
+            rb = match_bracket(src.text, lb)
+            val = -1
+            table = {}
+            for item in split_top(src.text[lb + 1:rb]):
+                item = item.strip()
+                if not item:
+                    continue
+                mm = re.match(r'^(\w+)\s*(?:=\s*(.+))?$', item, re.S)
+                if not mm:
+                    continue
+                if mm.group(2) is not None:
+                    try:
+                        val = int(mm.group(2).strip(), 0)
+                    except ValueError:
+                        ref = mm.group(2).strip()
+                        if ref in table:
+                            val = table[ref]
+                        else:
+                            raise ExtractionError('enum value %r not understood' % mm.group(2))
+                else:
+                    val += 1
+                table[mm.group(1)] = val
+            enums.append(table)
+        for w in wanted:
+            hits = [t[w] for t in enums if w in t]
+            if len(hits) != 1:
+                raise ExtractionError('enumerator %s found %d times in %s' % (w, len(hits), a['file']))
+            out.append('#define %s %d' % (w, hits[0]))
+            self.report.setdefault('defines', []).append(dict(name=w, file=a['file'], text=str(hits[0]), kind='enumerator'))
+        return '\n'.join(out)
+
+    # ------------------------------------------------------------------
     def define(self, a):
         src = self.src(a['file'])
         ms = list(re.finditer(r'^[ \t]*#define[ \t]+' + re.escape(a['name']) + r'\b((?:[^\n\\]|\\\n|\\.)*)$', src.text, flags=re.M))
@@ -1093,9 +1137,9 @@ class Extractor:
         # self-> for struct mode
         if a.get('self') == '1':
             names = member_names_by_class.get(a['class'])
-            if not names:
+            if not names and 'struct' not in a:
                 raise ExtractionError('%s: self=1 needs a members block for class %s before it' % (a['cname'], a['class']))
-            for nm in names:
+            for nm in (names or []):
                 inner, k = re.subn(r'(?<![\w.>])' + re.escape(nm) + r'\b', 'self->' + nm, inner)
             rep['rules']['member->self'] = 1
         # loop contracts (insert from the back so offsets stay valid)
@@ -1148,6 +1192,8 @@ class Extractor:
         if epi:
             out.append(epi)
         out.append('}')
+        if self.template_path and getattr(blk, 'end_line', None):
+            out.append('#line %d "%s"' % (blk.end_line + 1, self.template_path))
         rep['signature'] = sig
         self.report['functions'].append(rep)
         return '\n'.join(out) + '\n'
@@ -1165,6 +1211,8 @@ class Extractor:
                 jobs.append(it)
             elif kind == 'define':
                 out.append(self.define(it))
+            elif kind == 'enumval':
+                out.append(self.enumval(it))
             else:
                 if it.kind == 'members':
                     txt, names = self.members(it)
